@@ -44,7 +44,7 @@ TEXTS = {
     "C06": {
         "text": "Lean theorems: whitespace reduction to counters, layout-invariance of TokenSpacing for all kind sequences "
                 "(spacing_layout_invariant: amount of blanks; spacing_space_or_break: a space and a line break with any indentation "
-                "are the same gap - true since repair b68b46e), blank-line clamp; end-to-end layout independence decided by formatting "
+                "are the same gap - true since repair b68b46e), blank-line clamp; translator obligation layout_is_read_only_at_known_sites (every read of a token's original whitespace, line-break count or the newline string in the parser and in every rule, regenerated from the Rust source on every run); end-to-end layout independence decided by formatting "
                 "pairs of re-layouts of the same program (partial).",
         "design_ref": "DESIGN.md section 5 (C06)",
         "note": "Non-interference of the parser and the wrapper are contracts checked by the pair oracle.",
@@ -72,7 +72,7 @@ TEXTS = {
     "C14": {
         "text": "Lean theorems quantified over every operation trace of the line-building primitives (ordering, disjointness, coverage "
                 "of the pass), consolidation, directive lines, single pass without conditionals; every conditional-directive pass of every file is strictly increasing and in range (passes_sorted_in_range), so the line-builder theorems hold for every pass without side condition (file_lines_wellformed). Exact models replayed against the "
-                "real parser's hook trace and output on every case; direct C14 oracle on the parser output.",
+                "real parser's hook trace and output on every case; direct C14 oracle on the parser output. The three post-parse consolidators (generics, conditional directives inside a line, package directives) are exact models too (Model/Consolidators, fields ck/cl of every fmt record): consolidator_keeps_lines_wellformed (same number of lines, parents and levels untouched, every line still strictly increasing and in range, every token still in some line; an expanded line is the full range first..last), generics_only_retypes_chevrons, package_rule_changes_levels_only; the C14 oracle is also evaluated on the lines after the consolidators.",
         "design_ref": "DESIGN.md section 5 (C14)",
         "note": "Which primitive is called when is the parser's grammar knowledge: universally quantified in the theorems, taken from "
                 "the hook trace in the correspondence. Trusted: Lean kernel, translator, harness, hook patch, model.",
